@@ -757,16 +757,57 @@ theorem sync_limit_zero_never_progresses (arr : Arrange) (ord : RespOrder) (H : 
     simp only [hresp, applyDeltas, List.foldl_nil]
     split <;> rfl
 
-/-- `merkle_tree_depth` is an unvalidated `usize`: depths 59–63 make `generate_digest` panic
-    ("capacity overflow"); depth ≥ 64 panics on the shift with overflow checks and wraps to
-    `depth mod 64` without them -/
+/-- **Fixed defect C18:config:merkle_tree_depth:digest-panics** (c51a674).  Before the depth was
+    bounded, depths 59–63 made `generate_digest` panic ("capacity overflow"); depth ≥ 64 panicked
+    on the shift with overflow checks and wrapped to `depth mod 64` without them -/
 theorem digest_alloc_extremes :
-    digestAlloc true 16 = .buckets 65536 ∧ digestAlloc true 20 = .buckets 1048576
-    ∧ digestAlloc true 58 = .buckets (2 ^ 58)
-    ∧ digestAlloc true 59 = .capacityOverflowPanic ∧ digestAlloc false 63 = .capacityOverflowPanic
-    ∧ digestAlloc true 64 = .shiftOverflowPanic ∧ digestAlloc false 64 = .buckets 1
-    ∧ digestAlloc false 65 = .buckets 2 := by
+    digestAlloc .unbounded true 16 = .buckets 65536 ∧ digestAlloc .unbounded true 20 = .buckets 1048576
+    ∧ digestAlloc .unbounded true 58 = .buckets (2 ^ 58)
+    ∧ digestAlloc .unbounded true 59 = .capacityOverflowPanic ∧ digestAlloc .unbounded false 63 = .capacityOverflowPanic
+    ∧ digestAlloc .unbounded true 64 = .shiftOverflowPanic ∧ digestAlloc .unbounded false 64 = .buckets 1
+    ∧ digestAlloc .unbounded false 65 = .buckets 2 := by
   decide
+
+/-- **C18 (every configured depth yields a digest)** — current tree: with the depth capped at
+    `MAX_MERKLE_TREE_DEPTH = 20` no configured depth panics, whatever the build mode, and the
+    digest has `2^min(depth, 20)` buckets -/
+theorem digest_alloc_never_panics (oc : Bool) (depth : Nat) :
+    digestAlloc (.capped 20) oc depth = .buckets (2 ^ min depth 20) := by
+  unfold digestAlloc effectiveDepth
+  have h1 : min depth 20 ≤ 20 := Nat.min_le_right _ _
+  have h2 : ¬ (min depth 20 ≥ 64) := by omega
+  have h3 : min depth 20 % 64 = min depth 20 := Nat.mod_eq_of_lt (by omega)
+  simp only [h2, decide_false, Bool.and_false, Bool.false_eq_true, if_false, h3]
+  have h4 : 2 ^ min depth 20 ≤ 2 ^ 20 := Nat.pow_le_pow_right (by decide) h1
+  rw [if_neg]
+  have : (2 : Nat) ^ 20 = 1048576 := by decide
+  omega
+
+/-- the effective depth is ONE value: the digest built for a configured depth and both key
+    filters are all instances of the functions above at `effectiveDepth bound depth`, so
+    `digest_and_filter_use_same_bucket_function` applies verbatim for every configured depth
+    (stated here for the bound of the current tree) -/
+theorem configured_depth_uses_one_bucket_function (H : Hasher) (sb : Bool) (vs : ValueStream)
+    (configured : Nat) (π : List Nat) (s : NMap RV) (k : Nat) (v : RV) (hs : NMap.WF s)
+    (hπ : ValidOrder π s) (hget : NMap.get s k = some v) :
+    let depth := effectiveDepth currentDepthBound configured
+    depth ≤ 20
+    ∧ bucketOf depth (keyDigest H vs k v) < (fromState H sb vs depth π s).buckets.length
+    ∧ keyDigest H vs k v ∈ bucketDigests H vs depth π s (bucketOf depth (keyDigest H vs k v)) := by
+  intro depth
+  have h := digest_and_filter_use_same_bucket_function H sb vs depth π s k v hs hπ hget
+  exact ⟨Nat.min_le_right _ _, h.1, h.2.1⟩
+
+/-- **Fixed defect C18:sync:config:max_keys_per_sync=0** (7f2c849): the limit in effect is at
+    least one key per round -/
+theorem effective_limit_pos (limit : Nat) : 1 ≤ effectiveLimit true limit ∧ effectiveLimit false 0 = 0
+    ∧ (1 ≤ limit → effectiveLimit true limit = limit) := by
+  refine ⟨?_, rfl, ?_⟩
+  · show 1 ≤ max limit 1
+    exact Nat.le_max_right _ _
+  · intro h
+    show max limit 1 = limit
+    exact Nat.max_eq_left h
 
 /-! ## non-vacuity -/
 
